@@ -156,7 +156,8 @@ def getattr(I, st, v, name):
         def _rx(I, st, a, k):
             if len(a) != 1 or not isinstance(a[0], str):
                 raise Unsupported("regular expression applied to a symbolic string")
-            yield st, (ReMatch() if _b.getattr(v.rx, name)(a[0]) is not None else None)
+            # the string is concrete: Python's own re.Match object (truthy; group()/groups()/span() through re_method) or None
+            yield st, _b.getattr(v.rx, name)(a[0])
 
         yield st, bi("re.Pattern." + name, _rx)
         return
@@ -1025,8 +1026,7 @@ def dict_method(I, st, ref, name):
             if isinstance(src, Ref) and st.get(src).kind == "dict":
                 d.update(st.get(src).items)
             else:
-                for kv in I.iterate(src, st):
-                    kk, vv = I.iterate(kv, st)
+                for kk, vv in _mapping_or_pairs(I, st, src):
                     d[I.hashable(kk)] = vv
         d.update(k)
         yield st, None
@@ -1392,6 +1392,32 @@ def re_method(I, st, v, name):
 
 
 # ============================================================================ builtin classes as callables
+def _mapping_or_pairs(I, st, src):
+    """dict(src) / d.update(src) for a non-dict source, CPython's rule: an object that has a `keys` attribute is read as a
+    mapping (for k in src.keys(): src[k]); anything else is iterated as key/value pairs (a wrong pair length is an error the
+    model does not fork: Unsupported).  Every call involved must have exactly one, non-raising outcome."""
+    def one(outs, what):
+        outs = list(outs)
+        if len(outs) != 1 or isinstance(outs[0][1], Exc) or outs[0][0] is not st:
+            raise Unsupported("dict(...) from a mapping-like object: %s forks or raises" % what)
+        return outs[0][1]
+
+    if isinstance(src, Ref) and st.get(src).kind == "obj":
+        outs = list(I.getattr(src, "keys", st))
+        if len(outs) == 1 and outs[0][0] is st and not isinstance(outs[0][1], Exc):
+            keys = I.iterate(one(I.call(outs[0][1], [], {}, st), "keys()"), st)
+            return [(kk, one(_m().getitem(I, st, src, kk), "__getitem__")) for kk in keys]
+        if not (len(outs) == 1 and isinstance(outs[0][1], Exc) and outs[0][1].exc.cls.name == "AttributeError"):
+            raise Unsupported("dict(...) from an object whose `keys` lookup forks")
+    out = []
+    for kv in I.iterate(src, st):
+        pair = I.iterate(kv, st)
+        if len(pair) != 2:
+            raise Unsupported("dict(...) from a sequence whose elements are not pairs")
+        out.append((pair[0], pair[1]))
+    return out
+
+
 def call_builtin_class(I, st, c, args, kwargs):
     M = _m()
     n = c.name
@@ -1463,8 +1489,7 @@ def call_builtin_class(I, st, c, args, kwargs):
             if isinstance(src, Ref) and st.get(src).kind == "dict":
                 d.update(st.get(src).items)
             else:
-                for kv in I.iterate(src, st):
-                    kk, vv = I.iterate(kv, st)
+                for kk, vv in _mapping_or_pairs(I, st, src):
                     d[I.hashable(kk)] = vv
         d.update(kwargs)
         yield st, st.alloc(DictE(d))
@@ -2614,6 +2639,16 @@ def make_ext_modules(I):
 
     E["operator"] = {"mul": bi("operator.mul", _op2("Mult")), "truediv": bi("operator.truediv", _op2("Div")),
                      "add": bi("operator.add", _op2("Add")), "sub": bi("operator.sub", _op2("Sub"))}
+    def _cmp2(opname):
+        # operator.lt / le / gt / ge / eq / ne (a, b) = the comparison operator on the same operands
+        def fn(I, st, a, k):
+            if k or len(a) != 2:
+                raise Unsupported("operator comparison arguments")
+            yield from M.compare(I, st, opname, a[0], a[1])
+        return fn
+
+    for _nm, _op in (("lt", "Lt"), ("le", "LtE"), ("gt", "Gt"), ("ge", "GtE"), ("eq", "Eq"), ("ne", "NotEq")):
+        E["operator"][_nm] = bi("operator." + _nm, _cmp2(_op))
     E["collections.abc"] = {"Iterable": BuiltinClass("collections.abc.Iterable")}
     import string as _string
 
